@@ -46,7 +46,9 @@ def check(run):
     nv, nr = (8, 40) if quick else (14, 120)
     # VERS: the same constraint text under every scheme that accepts its versions (history across schemes)
     bodies = [">=1.0.0|<2.0.0", ">=1.0.0-beta1|<1.0.0-beta3|>=1.0.0-RC1|<1.0.0", "=1.0|!=1.1|>2.0", ">=1.0~rc1|<2.0.7", "<1.0.0-alpha|>=1.0.0|<2.0.9",
-              ">=1.0.0-rc.1|<1.0.0-rc.10|>=1.0.0-rc.2"]
+              ">=1.0.0-rc.1|<1.0.0-rc.10|>=1.0.0-rc.2",
+              # rejected half-way (valid constraints first): what a failed call leaves behind must not reach the next call
+              ">=1.0.0|<2.x!y z", "=1.0|!=1.1|>oops!"]
     versranges = ["vers:%s/%s" % (s, b) for b in bodies for s in versgen.SCHEMES]
     versprobes = ["1.0.0", "1.0.0-beta5", "1.5", "2.0.7", "1.0.0-rc.3", "v1.0.0", "1.0~rc2"]
     import re
